@@ -354,7 +354,64 @@ func c14Value(c *Ctx, k c14Case, v reflect.Value) {
 	}
 }
 
+// c14String: a string of spec/JsonString.tla's units (each unit at every offset of the scanner's 8-byte words, and in
+// the tail behind the last whole word) under every subset of the AppendFlags: with EscapeHTML the bytes are
+// encoding/json's, without it those of its Encoder with SetEscapeHTML(false) - as a value, an element, a member name
+// and value, a field
+func c14String(c *Ctx, k strCase) {
+	units := renderUnits(k.Str.S, k.Var)
+	if units == nil || len(k.Pads) != len(units)+1 {
+		c.SpecError("C14", "unknown string unit", k)
+		return
+	}
+	var sb strings.Builder
+	for i, u := range units {
+		sb.WriteString(strings.Repeat(strPad, k.Pads[i]))
+		sb.WriteString(u)
+	}
+	sb.WriteString(strings.Repeat(strPad, k.Pads[len(units)]))
+	s := sb.String()
+	values := []any{s, []string{"", s}, map[string]string{s: s}, struct {
+		F string `json:"f"`
+		G any
+	}{s, s}, map[string]any{"k": []any{s}}}
+	for mask := 0; mask < 8; mask++ {
+		fl, _ := subsetFlags(mask)
+		for vi, x := range values {
+			var ref bytes.Buffer
+			enc := stdjson.NewEncoder(&ref)
+			enc.SetEscapeHTML(fl&json.EscapeHTML != 0)
+			werr := enc.Encode(x)
+			want := bytes.TrimSuffix(ref.Bytes(), []byte("\n"))
+			var got []byte
+			var err error
+			c.Eval(1)
+			if p := protect(func() { got, err = json.Append(nil, x, fl) }); p != "" {
+				c.Diverge("C14", "json.Append(string units at every word offset)", "no panic", p, "", k)
+				return
+			}
+			if (err == nil) != (werr == nil) || (err == nil && !bytes.Equal(got, want)) {
+				c.Diverge("C14", "json.Append(string units at every word offset)", fmt.Sprintf("flags %d value %d: %s err=%v", mask, vi, clipS(string(want)), werr),
+					fmt.Sprintf("%s err=%v", clipS(string(got)), err), "", k)
+				return
+			}
+		}
+	}
+}
+
 func c14Vector(c *Ctx, raw stdjson.RawMessage) {
+	var sv strVec
+	if stdjson.Unmarshal(raw, &sv) == nil && sv.Dir == "esc" {
+		if !sv.Html {
+			return // the unit sequence comes twice, once per setting of the model's html switch: the flags are walked here
+		}
+		c.Nontrivial()
+		for _, pads := range strPadSets(len(sv.S), false, c.Tier) {
+			c.Case()
+			c14String(c, strCase{Str: &sv, Var: int(c.Seed), Pads: pads})
+		}
+		return
+	}
 	var fv flagsVec
 	if stdjson.Unmarshal(raw, &fv) == nil && fv.Cls != "" {
 		c.Nontrivial()
@@ -404,6 +461,11 @@ func c14Vector(c *Ctx, raw stdjson.RawMessage) {
 }
 
 func c14Replay(c *Ctx, raw stdjson.RawMessage) {
+	var sk strCase
+	if stdjson.Unmarshal(raw, &sk) == nil && sk.Str != nil {
+		c14String(c, sk)
+		return
+	}
 	var k c14Case
 	if stdjson.Unmarshal(raw, &k) != nil {
 		return
